@@ -6,7 +6,8 @@ CFG = {
     "prop": "C02", "theorems": ["C02_groups_follow_reference"], "feats": F, "n_quick": 500, "n_thorough": 12000,
     "tiers": ("t2", "run", "sem"), "k_base_quick": 14, "k_extra_quick": 8, "k_base_thorough": 80, "k_extra_thorough": 40,
     "corpus": ["(?:(?:(a)|b)(?=))*", "(?:(?>(a)|b)){2}", "(?:(?:(a)|b)(?!x))+", "(?:(?=(a)|b).)+", "(?:(?:(a)|(b))(?!x))+",
-               "(?:(?>(?:(a)(?=.))*)c|a*d)", "(?>(?:(a)(?=.))*)b", "(a)|(b)", "((a)|b)*", "(?=(a))\\1", "(?!(a))b", "((a)*?)b"],
+               "(?:(?>(?:(a)(?=.))*)c|a*d)", "(?>(?:(a)(?=.))*)b", "(?<=(a)|(c?a))\\2b", "(?<=(a)|(ca))(?:\\2)?b", "(a)|(b)", "((a)|b)*", "(?=(a))\\1", "(?!(a))b", "((a)*?)b"],
+    "extra_texts": ["cacab", "acab", "caab"],
     "assumptions": ["patterns refer only to groups closed earlier (the property's quantifier)"],
 }
 
